@@ -1,19 +1,36 @@
 /-
   `xfermodel xfer`: the ICS-20 engine.  Stateless requests (`denom.*`, `escrow.*`, `rl.*`, `ics20.recv`)
   are answered by `Driver/Denom.lean`; the stateful world (requests `reset`, `transfer`, `recv`, `ack`,
-  `timeout`, …) by `Driver/Ics20.lean`.
+  `timeout`, `params`, `banksend`, `view`) by `Driver/Ics20.lean`.
 -/
 import IbcVerif.Util.J
 import IbcVerif.Driver.Denom
+import IbcVerif.Driver.Ics20
 open Lean
 namespace IbcVerif.Driver.Xfer
 open IbcVerif.J
 
-def handlePure (f : String) (j : Json) : Except String Json :=
-  match IbcVerif.Driver.Denom.handle f j with
-  | some r => r
-  | none => .error s!"unknown function {f}"
+def bad (e : String) : Json := Json.mkObj [("bad", Json.str e)]
 
-def main : IO Unit := runEngine () (pureStep handlePure)
+def stepEngine (st : Option IbcVerif.Driver.Ics20.St) (j : Json) : Option IbcVerif.Driver.Ics20.St × Json :=
+  match str j "f" with
+  | .error e => (st, bad e)
+  | .ok f =>
+    match IbcVerif.Driver.Denom.handle f j with
+    | some (.ok r) => (st, r)
+    | some (.error e) => (st, bad e)
+    | none =>
+      if f == "reset" then
+        match IbcVerif.Driver.Ics20.doReset j with
+        | .ok s => (some s, Json.mkObj [("r", "ok")])
+        | .error e => (st, bad e)
+      else match st with
+        | none => (st, bad "no world: send reset first")
+        | some s =>
+          match IbcVerif.Driver.Ics20.handleOp s f j with
+          | .ok (s', r) => (some s', r)
+          | .error e => (st, bad e)
+
+def main : IO Unit := runEngine none stepEngine
 
 end IbcVerif.Driver.Xfer
